@@ -342,6 +342,9 @@ impl Exec {
                     self.yields += 1;
                 }
                 with(|w| Self::root_poll_end(w, &out));
+                if !self.violated() {
+                    crate::group::observe(self.root.as_mut().unwrap().as_mut());
+                }
             }
             Err(p) => {
                 poisoned = true;
